@@ -100,6 +100,36 @@ prop("C05", "exploration",
      [{"test": "TestC05", "quick": {"checks": 700, "shards": 4, "timeout": 900},
        "thorough": {"checks": 5000, "shards": 16, "timeout": 3000}}])
 
+prop("C04", "fault_enumeration",
+     "cases = scripted call trees (<= 8 frames per entry, Byzantium..Shanghai, 60% of calls carry value, effects before / "
+     "inside / after every call, REVERT / INVALID / small call gas / refused calls / static violations, creates, "
+     "selfdestructs, 1-2 invocations of all entry-point kinds). For a tree with F join-point firings the check runs the "
+     "fault-free scenario and then ENUMERATES every firing position 0..F-1 in turn with an injected provider failure "
+     "(texts: generic / 'out of gas' / 'execution reverted'; all three per position in the thorough tier) and, for a "
+     "generated subset of cases, with real failing WASM Aspects (trap, exhausted gas, revert) at that position. Every run is "
+     "decided by (1) history invariant: the state digest (balances, nonces, code, tracked storage, self-destruct flags, logs) "
+     "at the entry of each failed frame, taken before its value transfer, equals the digest at its exit, and the caller saw "
+     "failure; (2) trace replay: the final state after each invocation equals pre-state + the effects (SSTORE, LOG, "
+     "transfers, nonce bumps, code deposits, self-destructs) of exactly the frames that succeeded together with all their "
+     "ancestors; (3) metamorphic: succeeding Aspects / nothing bound == join points off. Non-trivial = a tree with >= 2 "
+     "firing positions or a value-carrying frame that failed while its caller continued with a later effect.",
+     [{"test": "TestC04", "quick": {"checks": 250, "shards": 4, "timeout": 900},
+       "thorough": {"checks": 2500, "shards": 16, "timeout": 3000}}])
+
+prop("C06", "exploration",
+     "cases = scripted call trees (budget 6, 35% of calls with small fixed gas so that Aspects can exhaust it) x real WASM "
+     "Aspect doubles burning {0, 10, 1e3, 3e4, 1e9} loop iterations and ending {ok, trap, revert}, 0-2 per join point on 75% of "
+     "the contracts, occasional provider failure. Conservation laws over the event log: callee's first step gas == gas left "
+     "by the last pre Aspect; first post Aspect starts with what the callee's last instruction left; Aspects on one join "
+     "point are chained; gas handed back to the caller (measured on the caller side from its next step) == gas left by the "
+     "last post Aspect when the frame succeeded or reverted, 0 otherwise; no frame of any kind returns more than it was "
+     "given; an exhausted Aspect surfaces as vm.ErrOutOfGas BY IDENTITY (frame exit, call-tree node, entry-point result) "
+     "with 0 returned; other non-revert post failures return 0; metamorphic: with identical control flow and no forfeiting "
+     "frame, leftover gas differs from the run without Aspects by exactly the sum of reported burns. Non-trivial = some "
+     "Aspect burned gas and the surrounding frame's gas was observed against it.",
+     [{"test": "TestC06", "quick": {"checks": 600, "shards": 4, "timeout": 900},
+       "thorough": {"checks": 5000, "shards": 16, "timeout": 3000}}])
+
 # ---------------------------------------------------------------------------
 # Text for MANIFEST.json (gen_manifest.py)
 
@@ -124,6 +154,27 @@ MANIFEST_TEXT = {
         "level_note": "Trusted: upstream core/vm as oracle; the recorder copies (gas, cost) at CaptureState/CaptureFault, "
                       "CaptureEnter/Exit, CaptureStart/End.",
         "technique": "property-based differential testing of step-level gas with generated gas-limit sweeps (rapid)",
+    },
+    "C04": {
+        "level_text": "Fault enumeration over generated call trees: every join-point firing position of every generated tree is "
+                      "failed in turn (provider errors of three classes; real failing WASM Aspects for a subset), and each run is "
+                      "decided by a history invariant (entry digest == exit digest of failed frames), by trace replay of the "
+                      "effects of the successful frames, and by a metamorphic relation. Trees are sampled; positions within a "
+                      "tree are enumerated exhaustively.",
+        "design_ref": "DESIGN.md section 4, C04",
+        "level_note": "Trusted: the debug-tracer stream and the Transfer/CanTransfer wrappers as observation points; the small "
+                      "effect vocabulary of the trace replay (SSTORE, LOGn, transfers, creator nonce, new-account nonce, code "
+                      "deposit, SELFDESTRUCT). The fault-free run is cross-checked against upstream (label, not verdict).",
+        "technique": "fault enumeration at every join-point firing of generated call trees, decided by history invariant + trace replay (rapid)",
+    },
+    "C06": {
+        "level_text": "Property-based testing of gas conservation laws over the event log of generated call trees with real "
+                      "gas-burning WASM Aspects at generated join points, plus a metamorphic comparison with the Aspect-free run.",
+        "design_ref": "DESIGN.md section 4, C06",
+        "level_note": "The statement fixes the gas outcome for exhausted Aspects and for non-revert post failures; for an Aspect "
+                      "that reverts only 'never more than given' and 'an Aspect never reports more than it got' are asserted. "
+                      "Out-of-gas is only injected through a really exhausted Aspect.",
+        "technique": "property-based testing of conservation laws over an event log + metamorphic relation (rapid, real WASM aspects)",
     },
     "C05": {
         "level_text": "Property-based testing of history invariants over the merged event log of generated call trees with real "
